@@ -199,45 +199,8 @@ def wsets(F, meths, flt):
     return res
 
 
-def _deep_leaves(F, fn, op, seen=None, depth=0):
-    """backward slice of an operand through *all* calls; leaves: ('arg',n,proj) ('const',..) ('route',proj) ;
-    also returns the set of callee names crossed"""
-    leaves = set()
-    crossed = set()
-    if seen is None:
-        seen = set()
-    for k, v, p in mir.trace(fn, op):
-        if k == "call":
-            t = fn["bbs"][v]["t"]
-            if (v,) in seen or depth > 12:
-                continue
-            seen.add((v,))
-            callee = t["callee"] or "<indirect>"
-            crossed.add(callee)
-            if callee == RC + "::route":
-                leaves.add(("route", None, p))
-                continue
-            for a in t["args"]:
-                l2, c2 = _deep_leaves(F, fn, a, seen, depth + 1)
-                leaves |= l2
-                crossed |= c2
-            if t.get("fp"):
-                l2, c2 = _deep_leaves(F, fn, t["fp"], seen, depth + 1)
-                leaves |= l2
-                crossed |= c2
-        elif k in ("agg", "bin", "other"):
-            bi, si = v
-            rv = fn["bbs"][bi]["s"][si]["r"]
-            if ("s", bi, si) in seen:
-                continue
-            seen.add(("s", bi, si))
-            for a in rv.get("o", []):
-                l2, c2 = _deep_leaves(F, fn, a, seen, depth + 1)
-                leaves |= l2
-                crossed |= c2
-        else:
-            leaves.add((k, v if k != "const" else "c", p))
-    return leaves, crossed
+def _deep_leaves(F, fn, op):
+    return mir.deep_leaves(fn, op, stop_calls={RC + "::route": "route"})
 
 
 def actor_only(F, op_rec, par, method_ids):
